@@ -7,14 +7,14 @@
 -/
 import ICG.Lemmas.SpecSA1
 
-namespace ICG
+namespace ICG.SpecSA
 
 variable {α : Type} [AddCommGroup α] [LinearOrder α] [IsOrderedAddMonoid α]
 
 /-! ### D. the lower game is a completion -/
 
 /-- a superadditive game is non-positive at ∅ -/
-theorem SA.zero_le {n : Nat} {w : Nat → α} (hw : SA n w) : w 0 ≤ 0 := by
+theorem sa_zero_le {n : Nat} {w : Nat → α} (hw : SA n w) : w 0 ≤ 0 := by
   have h := hw 0 0 (Nat.two_pow_pos n) (Nat.two_pow_pos n) (by simp)
   simp only [Nat.or_self] at h
   have : w 0 + w 0 ≤ w 0 + 0 := by rwa [add_zero]
@@ -25,7 +25,7 @@ theorem loSpec_zero_le {n : Nat} {known : Nat → Bool} (hmin : MinInfo n known)
     (hex : ∃ w, Completion n known val w) : loSpec known val 0 ≤ 0 := by
   obtain ⟨w, hw⟩ := hex
   rw [loSpec_known known val hmin.1, ← hw.2 0 (Nat.two_pow_pos n) hmin.1]
-  exact hw.1.zero_le
+  exact sa_zero_le hw.1
 
 /-- superadditivity of the lower game (needs one completion to exist: for a *known* union the inequality
     `lo a + lo b ≤ val (a ∪ b)` is a consistency condition on the data) -/
@@ -106,7 +106,7 @@ theorem zeroAt_mixed {n : Nat} {lo : Nat → α} (hlo : SA n lo) {a b : Nat} (ha
   by_cases hb0 : b = 0
   · subst hb0
     rw [Nat.or_zero]
-    calc _ ≤ (if a = 0 then 0 else lo a) + 0 := add_le_add le_rfl hlo.zero_le
+    calc _ ≤ (if a = 0 then 0 else lo a) + 0 := add_le_add le_rfl (sa_zero_le hlo)
       _ = _ := add_zero _
   by_cases ha0 : a = 0
   · subst ha0
@@ -159,7 +159,7 @@ theorem extremeUpper_SA {n : Nat} {lo : Nat → α} (hlo : SA n lo) {c : Nat} (h
 theorem upSpec_attained {n : Nat} {known : Nat → Bool} (hmin : MinInfo n known) {val : Nat → α}
     (hex : ∃ w, Completion n known val w) {c : Nat} (hc : c < 2 ^ n) (hk : known c = false) :
     ∃ w, Completion n known val w ∧ w c = upSpec n known val c := by
-  have hc0 : c ≠ 0 := hmin.ne_zero hk
+  have hc0 : c ≠ 0 := minInfo_ne_zero hmin hk
   refine ⟨extremeUpper (loSpec known val) c (upSpec n known val c), ⟨?_, ?_⟩, ?_⟩
   · exact extremeUpper_SA (loSpec_SA hmin hex) hc0 _
   · intro T hT hkT
@@ -370,4 +370,4 @@ theorem loSpec_isGreatest_partition {n : Nat} {known : Nat → Bool} (hmin : Min
       ∀ ps, IsPartition known c ps → (ps.map val).sum ≤ loSpec known val c :=
   ⟨exists_partition_eq_loSpec hmin val c hc hc0, fun _ hps => partition_sum_le_loSpec hmin hex hc hc0 hps⟩
 
-end ICG
+end ICG.SpecSA
